@@ -292,6 +292,8 @@ class Module:
             hdr.append("From BBLib Require Import NumpyDtype.")
         if getattr(self, "uses_interp", False):
             hdr.append("From BBLib Require NumSig Interp.")
+        if getattr(self, "uses_z", False):
+            hdr.append("From Coq Require ZArith.")
         if getattr(self, "sig_out", None):
             hdr.insert(4, "From Coq Require String.")      # imported only inside the module below: String.length would shadow List.length
         for m in self.imports:
@@ -1617,6 +1619,14 @@ def _full_like(tr, node, args, kwargs):
     fail(node, "np.full_like kinds")
 
 
+def _asarray(tr, node, args, kwargs):
+    """np.asarray(x[, dtype=np.float64]) on a float array / scalar of the model: conversion to double precision, the identity over R"""
+    dt = kwargs.pop("dtype", None)
+    if len(args) != 1 or kwargs or not isinstance(args[0], (DL, Sc)) or not (dt is None or (isinstance(dt, Dt))):
+        fail(node, "np.asarray form (one array, optional dtype=np.float64)")
+    return args[0]
+
+
 def _linspace(tr, node, args, kwargs):
     if len(args) != 3 or kwargs or not (isinstance(args[0], Sc) and isinstance(args[1], Sc) and isinstance(args[2], Na)):
         fail(node, "np.linspace form (start, stop, symbolic count)")
@@ -1756,7 +1766,7 @@ BUILTINS = {
     "float": _float, "np.float64": _float, "len": _len, "np.clip": _clip, "np.minimum": _minimum, "np.arange": _arange,
     "np.ones_like": lambda tr, node, args, kwargs: (DL(f"(map (fun _ => 1) {args[0].t})") if len(args) == 1 and not kwargs and isinstance(args[0], DL)
                                                      else Sc("1") if len(args) == 1 and not kwargs and isinstance(args[0], Sc) else fail(node, "np.ones_like form")),
-    "np.full": _full, "np.linspace": _linspace, "np.full_like": _full_like, "np.empty_like": _empty_like, "np.result_type": _result_type,
+    "np.full": _full, "np.linspace": _linspace, "np.asarray": _asarray, "np.full_like": _full_like, "np.empty_like": _empty_like, "np.result_type": _result_type,
     "cumulative_trapezoid": _cumtrapz, "sp.integrate.cumulative_trapezoid": _cumtrapz,
     "integrate.cumulative_trapezoid": _cumtrapz,
     "brentq": _brentq, "quad": _quad,
